@@ -1,0 +1,111 @@
+//go:build verif
+
+package s2
+
+// Read-only introspection of ShapeIndex and EdgeQuery state for the
+// model-based verification harness in /verif (build tag verif only).
+
+import (
+	"sync/atomic"
+
+	"github.com/golang/geo/s1"
+)
+
+// VerifClipped is the content of one clipped shape of an index cell.
+type VerifClipped struct {
+	ShapeID        int32
+	ContainsCenter bool
+	Edges          []int
+}
+
+// VerifIndexCell is one index cell in iteration order.
+type VerifIndexCell struct {
+	ID     CellID
+	Shapes []VerifClipped
+}
+
+// VerifIndexCells returns the cells of the index in the order of s.cells,
+// without triggering an update.
+func VerifIndexCells(s *ShapeIndex) []VerifIndexCell {
+	out := make([]VerifIndexCell, 0, len(s.cells))
+	for _, id := range s.cells {
+		c := VerifIndexCell{ID: id}
+		if ic := s.cellMap[id]; ic != nil {
+			for _, cs := range ic.shapes {
+				if cs == nil {
+					continue
+				}
+				c.Shapes = append(c.Shapes, VerifClipped{ShapeID: cs.shapeID, ContainsCenter: cs.containsCenter, Edges: append([]int(nil), cs.edges...)})
+			}
+		}
+		out = append(out, c)
+	}
+	return out
+}
+
+// VerifIndexState is the bookkeeping state of a ShapeIndex.
+type VerifIndexState struct {
+	Fresh               bool
+	PendingAdditionsPos int32
+	NextID              int32
+	NumShapes           int
+	PendingRemovals     int
+	NumCells            int
+	NumCellMap          int
+}
+
+// VerifIndexStateOf reads the bookkeeping state without triggering an update.
+func VerifIndexStateOf(s *ShapeIndex) VerifIndexState {
+	return VerifIndexState{
+		Fresh:               atomic.LoadInt32(&s.status) == fresh,
+		PendingAdditionsPos: s.pendingAdditionsPos,
+		NextID:              s.nextID,
+		NumShapes:           len(s.shapes),
+		PendingRemovals:     len(s.pendingRemovals),
+		NumCells:            len(s.cells),
+		NumCellMap:          len(s.cellMap),
+	}
+}
+
+// VerifLoopIndex returns the index owned by a loop.
+func VerifLoopIndex(l *Loop) *ShapeIndex { return l.index }
+
+// VerifPolygonIndex returns the index owned by a polygon.
+func VerifPolygonIndex(p *Polygon) *ShapeIndex { return p.index }
+
+// VerifQueryOpts is the option state currently held by an EdgeQuery.
+type VerifQueryOpts struct {
+	MaxResults       int
+	DistanceLimit    s1.ChordAngle
+	MaxError         s1.ChordAngle
+	IncludeInteriors bool
+	UseBruteForce    bool
+}
+
+// VerifEdgeQueryOpts returns the options the query would use for its next call.
+func VerifEdgeQueryOpts(e *EdgeQuery) VerifQueryOpts {
+	return VerifQueryOpts{
+		MaxResults:       e.opts.maxResults,
+		DistanceLimit:    e.opts.distanceLimit,
+		MaxError:         e.opts.maxError,
+		IncludeInteriors: e.opts.includeInteriors,
+		UseBruteForce:    e.opts.useBruteForce,
+	}
+}
+
+// VerifEdgeQueryLastPath reports which algorithm the last findEdges call of
+// the query used, from the same fields the code branches on.
+func VerifEdgeQueryLastPath(e *EdgeQuery) string {
+	if e.target == nil {
+		return "none"
+	}
+	if e.opts.useBruteForce || e.indexNumEdges < e.target.maxBruteForceIndexSize()+1 {
+		return "brute"
+	}
+	return "optimized"
+}
+
+// VerifEdgeQueryCovering returns the cached top-level index covering.
+func VerifEdgeQueryCovering(e *EdgeQuery) []CellID {
+	return append([]CellID(nil), e.indexCovering...)
+}
